@@ -295,7 +295,6 @@ func diffSets(want, got []string) (missing, extra []string) {
 }
 
 func checkC06(c *Ctx) {
-	scShallowSims = true // (references answer nothing in a stretch of some 18-item one-line programs: observed, not yet explained; DESIGN.md 11.3)
 	c.Rep.Rule = "programs are behaviours of Scope.tla (exhaustive up to the item bound, simulated beyond); find-references (includeDeclaration) is asked at every identifier occurrence of a fresh real server and compared, as a set of positions, with the occurrence class TLC's bindings define; distinct = distinct programs"
 	c.Rep.Assumptions = []string{
 		"renderer and position projection are trusted; occurrence classes are the groups of occurrences with equal TLC binding (local declaration id, or global name)",
